@@ -16,12 +16,16 @@ package vgiotel
 import (
 	"bytes"
 	"context"
+	"errors"
 	"fmt"
 	"io"
+	"io/fs"
 	"log/slog"
 	"net/http/httptest"
 	"sort"
+	"strconv"
 	"strings"
+	"syscall"
 	"testing"
 
 	"github.com/apache/arrow-go/v18/arrow"
@@ -73,6 +77,10 @@ func (s *ZC43State) turn(what string, out *vgirpc.OutputCollector) error {
 	case "x":
 		return &vgirpc.RpcError{Type: "ValueError", Message: fmt.Sprintf("scripted failure at turn %d", pos)}
 	}
+	if strings.HasPrefix(code, "v") { // fail with error value number N
+		n, _ := strconv.Atoi(code[1:])
+		return zc43ErrValue(n)
+	}
 	panic("zc43: unknown turn code " + code)
 }
 
@@ -90,6 +98,69 @@ func init() {
 	vgirpc.RegisterStateType(&ZC43State{})
 	// recovered handler panics are logged through slog by the code under test
 	slog.SetDefault(slog.New(slog.NewTextHandler(io.Discard, nil)))
+}
+
+// Error values by dynamic type: what a handler may legitimately return as `error`.
+type zc43StrErr string
+
+func (e zc43StrErr) Error() string { return string(e) }
+
+type zc43IntErr int
+
+func (e zc43IntErr) Error() string { return fmt.Sprintf("code %d", int(e)) }
+
+type zc43StructErr struct{ Op string }
+
+func (e zc43StructErr) Error() string { return "struct-valued error in " + e.Op }
+
+type zc43PtrErr struct{ Op string }
+
+func (e *zc43PtrErr) Error() string { return "pointer-typed error in " + e.Op }
+
+var zc43ErrValueNames = []string{"RpcError", "errors.New", "uintptr-based(syscall.Errno)", "string-based", "int-based", "struct-valued",
+	"pointer-to-struct", "*fs.PathError", "wrapped-RpcError", "errors.Join", "func-based"}
+
+type zc43FuncErr func() string
+
+func (f zc43FuncErr) Error() string { return f() }
+
+func zc43ErrValue(i int) error {
+	switch i {
+	case 0:
+		return &vgirpc.RpcError{Type: "ValueError", Message: "scripted RpcError"}
+	case 1:
+		return errors.New("scripted errors.New")
+	case 2:
+		return syscall.ENOENT
+	case 3:
+		return zc43StrErr("scripted string-based error")
+	case 4:
+		return zc43IntErr(7)
+	case 5:
+		return zc43StructErr{Op: "handler"}
+	case 6:
+		return &zc43PtrErr{Op: "handler"}
+	case 7:
+		return &fs.PathError{Op: "open", Path: "/nonexistent", Err: syscall.ENOENT}
+	case 8:
+		return fmt.Errorf("wrapped: %w", &vgirpc.RpcError{Type: "ValueError", Message: "inner"})
+	case 9:
+		return errors.Join(errors.New("first"), zc43IntErr(3))
+	default:
+		return zc43FuncErr(func() string { return "func-based error" })
+	}
+}
+
+// zc43ErrKinds: each error value returned from a unary handler, a stream init and an exchange turn.
+func zc43ErrKinds() []zc43Kind {
+	var out []zc43Kind
+	for i, n := range zc43ErrValueNames {
+		out = append(out,
+			zc43Kind{Name: "u-errval:" + n, Method: "u_errval", X: int64(i)},
+			zc43Kind{Name: "prod-initerrval:" + n, Method: "prod", Stream: 1, X: -100 - int64(i), In: []string{"t"}},
+			zc43Kind{Name: "exch-turnerrval:" + n, Method: "exch", Stream: 2, X: 200 + int64(i), In: []string{"i", "i"}})
+	}
+	return out
 }
 
 var zc43Scripts = map[int64][]string{
@@ -145,12 +216,21 @@ func zc43NewServer() *vgirpc.Server {
 	vgirpc.Unary(s, "u_plainerr", func(ctx context.Context, cc *vgirpc.CallContext, p ZC43Params) (int64, error) {
 		return 0, fmt.Errorf("scripted plain Go error (not an RpcError)")
 	})
+	vgirpc.Unary(s, "u_errval", func(ctx context.Context, cc *vgirpc.CallContext, p ZC43Params) (int64, error) {
+		return 0, zc43ErrValue(int(p.X))
+	})
 	vgirpc.Unary(s, "u_panic", func(ctx context.Context, cc *vgirpc.CallContext, p ZC43Params) (int64, error) {
 		panic("scripted unary panic")
 	})
 	initFn := func(ctx context.Context, cc *vgirpc.CallContext, p ZC43Params) (*vgirpc.StreamResult, error) {
 		if p.X == -1 {
 			return nil, &vgirpc.RpcError{Type: "ValueError", Message: "scripted init failure"}
+		}
+		if p.X <= -100 {
+			return nil, zc43ErrValue(int(-100 - p.X))
+		}
+		if p.X >= 200 {
+			return &vgirpc.StreamResult{OutputSchema: zc43OutSchema, State: &ZC43State{Script: []string{"e", fmt.Sprintf("v%d", p.X-200)}}}, nil
 		}
 		return &vgirpc.StreamResult{OutputSchema: zc43OutSchema, State: &ZC43State{Script: zc43Scripts[p.X]}}, nil
 	}
@@ -659,7 +739,7 @@ func zc43SetGlobalPropagator(on bool) (restore func()) {
 	return func() { otel.SetTextMapPropagator(prev) }
 }
 
-func zc43Explore(t *testing.T, name string, maxDepth int, tpModes []int, globalProp bool) {
+func zc43Explore(t *testing.T, name string, kinds []zc43Kind, maxDepth int, tpModes []int, globalProp bool) {
 	venum.Explore(t, venum.Cfg{Name: name, Shardable: true, CheckDeterminism: true}, func(x *venum.X) {
 		cfg := x.Choose(32, "config(transport x tracing x metrics x tracestate x ambient-span)")
 		http := cfg&1 == 1
@@ -670,9 +750,9 @@ func zc43Explore(t *testing.T, name string, maxDepth int, tpModes []int, globalP
 		n := 1 + x.Choose(maxDepth, "calls")
 		var hist []zc43Call
 		for i := 0; i < n; i++ {
-			k := x.Choose(len(zc43Kinds), fmt.Sprintf("call%d", i))
+			k := x.Choose(len(kinds), fmt.Sprintf("call%d", i))
 			tp := tpModes[x.Choose(len(tpModes), fmt.Sprintf("traceparent%d", i))]
-			hist = append(hist, zc43Call{Kind: &zc43Kinds[k], TP: tp, TState: tstate})
+			hist = append(hist, zc43Call{Kind: &kinds[k], TP: tp, TState: tstate})
 		}
 		transport := "pipe"
 		if http {
@@ -839,12 +919,20 @@ func zc43Explore(t *testing.T, name string, maxDepth int, tpModes []int, globalP
 	})
 }
 
+// third space: failures by the dynamic type of the error value (a handler may return any error:
+// pointer, string-, int-, uintptr-, func- or struct-based, wrapped, joined) from a unary handler, a
+// stream init and an exchange turn
+func zc43ErrValueSpace(t *testing.T) {
+	zc43Explore(t, "otel-error-value-types", zc43ErrKinds(), venum.QT(1, 2), []int{zc43TPAbsent, zc43TPValid}, false)
+}
+
 func TestVerif_C43(t *testing.T) {
 	venum.Begin("C43")
 	defer venum.Finish(t)
 	// main space: explicit OtelConfig.Propagator
-	zc43Explore(t, "otel-histories", venum.QT(2, 3), []int{zc43TPAbsent, zc43TPValid, zc43TPMalformed}, false)
+	zc43Explore(t, "otel-histories", zc43Kinds, venum.QT(2, 3), []int{zc43TPAbsent, zc43TPValid, zc43TPMalformed}, false)
 	// second space: unsampled parents (non-recording spans) and the propagator resolved from the
 	// global default (OtelConfig.Propagator nil, otel.SetTextMapPropagator(TraceContext{}))
-	zc43Explore(t, "otel-unsampled-parent-global-propagator", venum.QT(1, 2), []int{zc43TPUnsampled, zc43TPValid}, true)
+	zc43Explore(t, "otel-unsampled-parent-global-propagator", zc43Kinds, venum.QT(1, 2), []int{zc43TPUnsampled, zc43TPValid}, true)
+	zc43ErrValueSpace(t)
 }
